@@ -142,11 +142,16 @@ def parse_spec(spec, formatter_cls):
         raise ExtractError('alignment %r outside the model' % align)
     if ty not in ('s', 'd', 'f'):
         raise ExtractError('format type %r outside the model' % ty)
-    if ty == 's' and prec:
-        raise ExtractError('precision on a string field is outside the model')
+    if ty in ('s', 'd') and prec is not None:
+        raise ExtractError('precision on a string or integer field is outside the model')
     return {'fill': fill if fill is not None else ' ', 'align': {None: 'dflt', '<': 'left', '>': 'right'}[align],
             'width': int(width) if width else 0, 'prec': int(prec) if prec else (6 if ty == 'f' else 0),
             'ty': ty, 'trunc': trunc}
+
+
+def raw_specs(fmt):
+    """the format-spec strings of the replacement fields of a format string, as written in the source"""
+    return [spec for lit, field, spec, conv in string.Formatter().parse(fmt) if field is not None]
 
 
 def parse_format(fmt, names, formatter_cls):
@@ -324,6 +329,8 @@ def extract(repo):
             raise ExtractError('unknown GRO reader field %r' % n)
     res['groVelNames'] = vel_names
     res['groDotFrom'] = dot_from
+    res['raw'] = {'atom': raw_specs(atom_fmt), 'ter': raw_specs(ter_fmt), 'conect': raw_specs(number_fmt)[0],
+                  'gro': raw_specs(gro_fmt), 'groFmts': [(p, raw_specs(gro_format_for(p))) for p in GRO_PRECISIONS]}
     res['strings'] = {'atom': atom_fmt, 'ter': ter_fmt, 'number': number_fmt, 'conect_prefix': conect_prefix,
                       'gro': gro_fmt}
     return res
@@ -389,6 +396,10 @@ def lchars(s):
     return '[' + ', '.join(lchar(c) for c in s) + ']'
 
 
+def llist(strs):
+    return '[' + ', '.join(lchars(x) for x in strs) + ']'
+
+
 def lspec(sp):
     return '⟨%s, .%s, %d, %d, .%s, %s⟩' % (lchar(sp['fill']), sp['align'], sp['width'], sp['prec'], sp['ty'],
                                             'true' if sp['trunc'] else 'false')
@@ -449,10 +460,21 @@ def gro : GroLayout :=
   { atomFmt := groFmt, fieldNames := groNames, fieldTypes := groTypes, fieldWidths := groWidths,
     velNames := groVelNames, velTypes := [.float, .float, .float], dotFrom := groDotFrom }
 
+/-! the format-spec STRINGS of the replacement fields, exactly as they stand in the source: the `Spec`s
+above are what `C16.specOfString` (regular expression of TruncFormatter) makes of them — `layout_specs_parse` -/
+def atomRaw : List (List Char) := %s
+def terRaw : List (List Char) := %s
+def conectRaw : List Char := %s
+def groRaw : List (List Char) := %s
+def groFmtsRaw : List (Nat × List (List Char)) := [
+%s]
+
 end C16.Layout
 ''' % (lsegs(res['atomFmt']), lsegs(res['terFmt']), lchars(res['conectPrefix']), lspec(res['conectNum']),
        res['conectChunk'], lchars(res['endLine']), rf, res['conectStart'], res['conectWidth'],
        lsegs(res['groFmt']), ',\n'.join('  (%d, %s)' % (p, lsegs(sg)) for p, sg in res['groFmts']),
        res['groDefaultPrecision'], ', '.join('.' + n for n in res['groNames']),
        ', '.join('.' + t for t in res['groTypes']), ', '.join(str(w) for w in res['groWidths']),
-       ', '.join('.' + n for n in res['groVelNames']), res['groDotFrom'])
+       ', '.join('.' + n for n in res['groVelNames']), res['groDotFrom'],
+       llist(res['raw']['atom']), llist(res['raw']['ter']), lchars(res['raw']['conect']), llist(res['raw']['gro']),
+       ',\n'.join('  (%d, %s)' % (p, llist(r)) for p, r in res['raw']['groFmts']))
